@@ -671,10 +671,10 @@ def parse_vc(path):
                             c['spec'] += cs + ' '
                     fn['closures'][n_] = c
                 elif s2.startswith('#abstract-let '):
-                    m2 = re.match(r'#abstract-let\s+(\w+)\s*=\s*(.+)$', s2)
+                    m2 = re.match(r'#abstract-let\s+(\w+)\s+sha=(\w+)\s*=\s*(.+)$', s2)
                     if not m2:
-                        raise ExtractError(f'{path}: bad #abstract-let: {s2}')
-                    fn.setdefault('abstract', []).append((m2.group(1), m2.group(2).strip()))
+                        raise ExtractError(f'{path}: bad #abstract-let (need `NAME sha=<hash> = expr`): {s2}')
+                    fn.setdefault('abstract', []).append((m2.group(1), m2.group(3).strip(), m2.group(2)))
                 elif s2.startswith('#ascribe '):
                     m2 = re.match(r'#ascribe\s+(\w+)\s*:\s*(.+)$', s2)
                     if not m2:
@@ -743,7 +743,7 @@ def extract_fn(repo, spec, features):
     # binding but the initialiser is replaced by a call to an assumed-contract function.  This is
     # NOT meaning-preserving: it is logged, reported in the evidence as an unverified expression,
     # and may only be used for initialisers that borrow `self` immutably.
-    for (var, repl) in spec.get('abstract', []):
+    for (var, repl, want_sha) in spec.get('abstract', []):
         hits = []
         j = bo + 1
         while j < bc:
@@ -764,6 +764,12 @@ def extract_fn(repo, spec, features):
             raise ExtractError(f'lost anchor: let {var} in {spec["name"]} ({len(hits)} matches)')
         a, e = hits[0]
         orig = ' '.join(sf.text[T[a].start:T[e].start].split())
+        # the abstraction is valid only for the exact expression that was reviewed when it was
+        # written: any edit inside it makes the unit UNDECIDED (never an alarm, never a silent pass)
+        have_sha = hashlib.sha256(norm(T[a:e]).encode()).hexdigest()[:16]
+        if have_sha != want_sha:
+            raise ExtractError(f'abstracted initialiser of `{var}` in {spec["name"]} changed '
+                               f'(sha {have_sha}, reviewed {want_sha}): abstraction no longer justified')
         if re.search(r'&mut\s+self|self\.\w+\s*=[^=]', orig):
             raise ExtractError(f'abstracted initialiser of {var} mutates self: refused')
         edits.add(T[a].start, T[e].start, ' ' + repl, 'rewrite', 'R6 abstract')
